@@ -46,7 +46,7 @@ type C20Case struct {
 	V6         bool     `json:"v6,omitempty"`
 	Wild       bool     `json:"wildcard_listen,omitempty"`
 	IP4Form    bool     `json:"relay_ip_4_bytes,omitempty"` // the configured IPv4 relay address is a 4-byte net.IP (net.IP.To4, netip.Addr.AsSlice)
-	Rand       []uint32 `json:"rand"` // scripted Intn outputs (0xFFFFFFFF = n-1, others reduced mod n)
+	Rand       []uint32 `json:"rand"`                       // scripted Intn outputs (0xFFFFFFFF = n-1, others reduced mod n)
 	Pre        []int    `json:"pre,omitempty"`
 	Ops        []C20Op  `json:"ops"`
 }
